@@ -162,3 +162,30 @@ register('C13', title='epoched analysis partitions the flattened analysis',
                  'thorough': {'nontrivial': 5000}},
          assumptions=['the flattened analysis itself is decided by C01-C07'],
          quick_shards=8, thorough_shards=16)
+
+register('C12', title='3-D group placement',
+         deciding=['pool_worker_events'],
+         rule='pool runs of compute_features_3d / BycycleGroup.fit on arrays of shape (n0, n1, samples), n0,n1 in 1..4 (every (shape, axis) '
+              'cell visited across shards/seeds), pairwise different signals, axis in {0, 1, (0,1)}, options shared dict / None / 1-D list / '
+              '2-D list, n_jobs in {1,2,-1}, completion order perturbed by injected delays. Oracle: entry [i][j] == the real per-signal '
+              '(axis=(0,1)) or per-slice flattened-epoch (axis 0/1) analysis with the options of that position (exact table equality); a '
+              'table found elsewhere is reported with both positions; event log: every slice analysed exactly once. Non-trivial = n0 != n1 '
+              'or both > 1; distinct by SHA-1 of the case.',
+         floors={'quick': {'nontrivial': 15, 'classes': {'cell:axis=(0, 1):kwargs=2d': 1}}, 'thorough': {'nontrivial': 300}},
+         assumptions=['per-signal / per-slice analyses are decided by C01-C07 and C13',
+                      '2-D option list of matching shape with axis 0 or 1: ValueError or slice-wise (position-wise) pairing are both accepted'],
+         quick_shards=8, thorough_shards=16)
+
+register('C19', title='invalid settings rejected',
+         deciding=['decision_table_probe', 'check_kwargs_shape'],
+         rule='exhaustive grid: array shapes (2-D with 1-3 rows; 3-D with 1-3 x 1-3) x axis in {0, 1, (0,1), None, 2, -1, "x", [0,1]} x '
+              'option structure in {None, dict, 1-D lists of length 1-3, 2-D lists 1-3 x 1-3, a 3-D list} evaluated at compute_features_2d/_3d '
+              'with tiny signals and (for lists) at check_kwargs_shape; plus every documented parameter at / just inside / just outside its '
+              'range at each public entry point that takes it (fs, thresholds, min_n_cycles, amp_threshes, centre, method, first_extrema, '
+              'direction, axis, progress, dimensionality, plot-before-fit). Oracle: a decision table written from the docstrings; observed '
+              'outcome in {returned, ValueError, other exception}. Every cell / probe is a distinct case.',
+         floors={'quick': {'nontrivial': 1500, 'classes': {'accept:accepted': 150, 'reject:rejected': 1200}},
+                 'thorough': {'nontrivial': 1500}},
+         assumptions=['3-D array, axis 0 or 1, 2-D list of exactly matching shape: reject or position-wise pairing both accepted',
+                      'fs = 0 must raise ValueError in whatever layer', 'equal amplitude thresholds: either outcome'],
+         quick_shards=8, thorough_shards=16)
